@@ -47,3 +47,35 @@ CHECKS = [
      "text": "Seeded search over model programs whose handlers observe into the four simulation statistics types (direct and via data events) with ties against the warm-up event, warm-up in {0, mid, =end, >end}, pauses/steps/bounded runs; at END_REPLICATION every getter must be bit-identical to the ordinary statistic fed the post-warm-up observations (persistent: closed at the end time); statistics are retrievable from the model by key; every published value equals the getter at that moment.",
      "note": "float and int clocks only; same-algorithm differential"},
 ]
+
+CHECKS += [
+    {"property_id": "C07", "level": "exploration", "design_ref": "DESIGN.md §4.7",
+     "technique": "deterministic simulation turned on the system under test: the same stochastic model programs executed in 8 child interpreters under injected process-level nondeterminism (PYTHONHASHSEED, id counters, heap noise, gc, thread schedule seed, virtual-time speed, pause pattern); digest equality",
+     "text": "Seeded batches of stochastic model programs with pub/sub fan-out (listeners with identity hash that draw from shared streams and schedule events) are run in separate interpreter processes, each with a different perturbation of everything a run must not depend on; the digest of executed events, deliveries, draws, all statistics getters and the final state must be identical in all of them, and the simulator notification stream identical among equal pause patterns.",
+     "note": "the violation itself is nondeterminism, so a replay file re-runs the same children and may need more than one attempt; float clock"},
+    {"property_id": "C09", "level": "exploration", "design_ref": "DESIGN.md §4.9",
+     "technique": "deterministic simulation (history + exact-rational reference model, scheduler idle; weak fit, said plainly): seeded observation histories with rejected inputs and resets",
+     "text": "Seeded search over observation histories (seven data regimes up to condition number 1e6, n up to 60 quick / 2000 thorough) interleaved with rejected inputs, initialize calls and queries, on plain, event-publishing and subscribed tallies and counters; every getter is compared with exact rational arithmetic within a conditioning-aware bound, NaN exactly where undefined, never raising; rejected input must leave every getter bit-identical; published values equal getters.",
+     "note": "no scheduler/clock/second party in this property; accuracy of skewness/kurtosis only judged while the bound stays below 1e-3"},
+    {"property_id": "C10", "level": "exploration", "design_ref": "DESIGN.md §4.9",
+     "technique": "deterministic simulation (history + exact-rational reference / exact step-function integral, scheduler idle; weak fit): seeded weighted and timestamped observation histories with timestamp anomalies",
+     "text": "Seeded search over weighted and timestamped histories (zero / all-zero weights, repeated timestamps, regressing and NaN timestamps, closing, observations after close, re-initialisation); weighted sum, mean, variances and standard deviations are compared with exact rational values resp. the exact integral of the piecewise-constant signal; rejected calls change nothing; nothing reported changes after closing.",
+     "note": "weighted_mean with zero total weight must merely not raise; n/min/max of the timestamp variant not judged"},
+    {"property_id": "C12", "level": "exploration", "design_ref": "DESIGN.md §4.11",
+     "technique": "deterministic simulation (history + metamorphic relations, scheduler idle; weak fit): seeded draw/reseed/reset/save/restore histories over interleaved streams; extreme uniforms injected at the wrapped-Random seam",
+     "text": "Every draw of a stream that is reseeded, reset and restored is compared bit for bit with a shadow stream that is only ever constructed and drawn from; solo twins check independence from interleaving; ranges are checked for every draw including huge and single-value ranges and for scripted extreme uniforms.",
+     "note": "relations, not a re-implementation: a different but valid generator passes"},
+    {"property_id": "C13", "level": "exploration", "design_ref": "DESIGN.md §4.12",
+     "technique": "deterministic simulation of process-level nondeterminism: seed-update cases evaluated in 6 child interpreters with different PYTHONHASHSEED and both dict listing orders; equality; in-process fallback and refusal atomicity",
+     "text": "Batches of (stream names, original seeds, seed tables, replication number, updater) are evaluated in six interpreter processes started with different hash seeds and with the stream dict listed forwards and backwards; seeds and first draws must agree everywhere; unlisted streams use the fallback; refused updates leave the stream untouched.",
+     "note": "hash randomisation is the only process-level variation the property names"},
+    {"property_id": "C14", "level": "fault_enumeration", "design_ref": "DESIGN.md §4.13",
+     "technique": "deterministic simulation with fault injection at the StreamInterface seam: enumerated matrix of extreme-but-legal uniforms x draw positions x parameter regimes for all 19 distributions, plus seeded random parameters and fault plans; support/totality/twin/isolation/re-pointing oracles",
+     "text": "A scripted stream returns 0.0, 5e-324, 2**-53, 0.5 or 1-2**-53 at chosen uniform positions (all single placements and all pairs among the first four) for every class and parameter regime; each cell checks that drawing never raises, stays in the support, equals an equally scripted twin, is unaffected by a second instance, never consumes the old stream after re-pointing and drops cached state; constructors reject parameters outside and accept parameters inside the documented domain (open finding D20 for p in {0,1} of Geometric/NegBinomial).",
+     "note": "shape-like parameters within [0.1, 100]; overflow for more extreme parameters is not judged"},
+    {"property_id": "C18", "level": "exploration", "design_ref": "DESIGN.md §4.14",
+     "technique": "deterministic simulation (history + reference-model idiom with failure atomicity, scheduler idle; weak fit): seeded operation-and-rejection histories over parameter trees",
+     "text": "Seeded search over histories of constructing (valid, invalid default, duplicate key), setting (valid, wrong type, out of bounds, read-only), getting and removing by dotted key and the model-level set/get round trip on trees of all eight parameter classes; after every operation the whole real tree is compared with a reference tree; rejected operations change nothing.",
+     "note": "bool never offered to int/float parameters; absent-key removal not generated"},
+]
+CHECKS.sort(key=lambda c: c["property_id"])
